@@ -59,7 +59,12 @@ def make_case(rnd, kind):
         base, plain, o = dcorpus.synth_valid(rnd, trailing=b'')
         second, p2, o2 = dcorpus.synth_valid(rnd, trailing=b'')
         junk = rnd.choice([b'x', b'\0' * 5, b'BZh0', b'junk!'])
-        g = junk + MAGIC + rnd.randbytes(rnd.choice([4, 30])) + rnd.choice([b'', second, second[4:], MAGIC * 3])
+        many = b''
+        if rnd.random() < 0.5:
+            # dozens of complete valid streams after the garbage: all of them must be ignored
+            import bz2 as _bz2
+            many = b''.join(_bz2.compress(b'trailing %d ' % k * rnd.randint(1, 30), rnd.randint(1, 9)) for k in range(rnd.choice([20, 31, 47, 62, 130])))
+        g = junk + MAGIC + rnd.randbytes(rnd.choice([4, 30])) + rnd.choice([b'', second, second[4:], MAGIC * 3]) + many
         return base + g
     if kind == 'near-true-header':
         # a pattern 1..3 bits before / after the true next header cannot be planted in coded data reliably;
